@@ -2,6 +2,7 @@ package layout
 
 import (
 	"fmt"
+	"math"
 	"strings"
 	"unicode"
 
@@ -734,24 +735,40 @@ func breakWaitingChildren(context *layoutContext, box Box, bottomSpace pr.Float,
 			// find a better way.
 			maxX := child.Box().PositionX + child.Box().MarginWidth() - 1
 			var (
-				hasBroken     bool
 				newChild      Box
 				childResumeAt tree.ResumeStack
 			)
-			for maxX > child.Box().PositionX {
-				tmp := splitInlineLevel(context, originalChild, child.Box().PositionX, maxX, bottomSpace,
+			// The candidates are maxX, maxX - 1, ... down to the left edge of the child;
+			// we want the first one where the child breaks.
+			breaksAt := func(step int) bool {
+				tmp := splitInlineLevel(context, originalChild, child.Box().PositionX, maxX-pr.Float(step), bottomSpace,
 					childSkipStack, box, absoluteBoxes, fixedBoxes, linePlaceholders, waitingFloats, lineChildren)
-				newChild, childResumeAt = tmp.newBox, tmp.resumeAt
-
-				if childResumeAt != nil {
-					hasBroken = true
-					break
+				if tmp.resumeAt != nil {
+					newChild, childResumeAt = tmp.newBox, tmp.resumeAt
+					return true
 				}
-				maxX -= 1
+				return false
 			}
-			if !hasBroken { // else
-				// No line break found
+			steps := int(math.Ceil(float64(maxX - child.Box().PositionX)))
+			if steps <= 0 {
 				continue
+			}
+			if !breaksAt(0) {
+				// A child that breaks in a given width also breaks in a smaller one:
+				// look for the first breaking step by bisection, instead of
+				// rendering the child again for each pixel of its width.
+				low, high := 1, steps-1
+				if high < low || !breaksAt(high) {
+					// No line break found
+					continue
+				}
+				for low < high {
+					if mid := (low + high) / 2; breaksAt(mid) {
+						high = mid
+					} else {
+						low = mid + 1
+					}
+				}
 			}
 
 			*children = append(*children, waitingChildrenCopy...)
